@@ -300,9 +300,14 @@ func runE2ECase(c *run.Ctx, s *kit.Summary, ec *e2eCase, id int) {
 			s.Skipped["e2e: attack command did not finish"]++
 			return
 		}
-		// a rejected command line of documented values is a violation by itself
-		s.Violate(kit.Violation{Kind: "cmdline_rejected", What: "vegeta attack refused documented flag values", Input: ec,
-			Expected: "exit 0", Observed: err.Error() + ": " + strings.TrimSpace(stderr.String())})
+		// a command line of documented values that the flag package refuses is a violation by itself; any other
+		// failure of the run (environment) gives no verdict
+		if strings.Contains(stderr.String(), "invalid value") {
+			s.Violate(kit.Violation{Kind: "cmdline_rejected", What: "vegeta attack refused documented flag values", Input: ec,
+				Expected: "exit 0", Observed: err.Error() + ": " + strings.TrimSpace(stderr.String())})
+		} else {
+			s.Skipped["e2e: attack command failed for another reason than a flag value"]++
+		}
 		return
 	}
 	rs.mu.Lock()
@@ -335,7 +340,9 @@ func runE2ECase(c *run.Ctx, s *kit.Summary, ec *e2eCase, id int) {
 		if g := multiset(got); g != want {
 			kind := "header_case_on_wire"
 			if ec.Proxy {
-				kind = "proxy_header_case_on_wire"
+				// -proxy-header is not named by the property: observed and counted, not judged
+				s.Count("e2e:proxy_header_lines_differ")
+				return
 			}
 			s.Violate(kit.Violation{Kind: kind, What: "the header lines sent differ from the repeated " + what + " flags (keys byte for byte, values accumulated per key)",
 				Input: ec, Expected: want, Observed: g, Key: map[string]interface{}{"flag": what}})
@@ -453,6 +460,37 @@ func runE2E(c *run.Ctx, s *kit.Summary, r *kit.Rng) {
 		}(i, ec)
 	}
 	wg.Wait()
+}
+
+// newGuardConfirm: see guardConfirm in main.go.
+func newGuardConfirm(c *run.Ctx, s *kit.Summary) func(string) bool {
+	cache := map[string]bool{}
+	return func(word string) bool {
+		if v, ok := cache[word]; ok {
+			return v
+		}
+		rs, err := newRawServer(1)
+		if err != nil {
+			return true // no verdict possible: leave the hook's answer as it is
+		}
+		defer rs.close()
+		dir := filepath.Join(c.Work, "guard-"+strconv.Itoa(len(cache)))
+		os.MkdirAll(dir, 0o755)
+		tf := filepath.Join(dir, "targets.txt")
+		os.WriteFile(tf, []byte("GET http://"+rs.addr(0)+"/guard\n"), 0o644)
+		ctx, cancel := context.WithTimeout(context.Background(), 20*time.Second)
+		defer cancel()
+		cmd := exec.CommandContext(ctx, c.Vegeta, "attack", "-targets", tf, "-output", filepath.Join(dir, "out.gob"), "-duration", "150ms", "-timeout", "1s", "-workers", "2", "-rate="+word)
+		cmd.Env = []string{"PATH=" + os.Getenv("PATH"), "HOME=" + dir}
+		runErr := cmd.Run()
+		rs.mu.Lock()
+		n := len(rs.reqs)
+		rs.mu.Unlock()
+		ran := n > 0 || runErr == nil
+		cache[word] = ran
+		s.Count(fmt.Sprintf("e2e:guard_confirmation_runs ran=%v", ran))
+		return ran
+	}
 }
 
 func replayE2E(c *run.Ctx, s *kit.Summary, raw []byte) {
